@@ -199,6 +199,53 @@ func c08ConcurrentDuplicates(r *core.Run, idx int, rng *rand.Rand) {
 	}
 }
 
+// c08CancelledDuringPersist: the client goes away (the request context is cancelled) while the storage is inside
+// CreateAuthRequest, and the storage finishes the write it has started. Whatever the handler answers, the dichotomy
+// holds: a stored record means the request was sent on to login with exactly that record's identifier.
+func c08CancelledDuringPersist(r *core.Run, idx int, rng *rand.Rand) {
+	const wl = "cancelled_during_persist"
+	c := conformantSSO(rng)
+	c.Host = ""
+	c.Signed = false
+	c.SPD.AuthnRequestsSigned, c.Want = "", ""
+	e := env.Static(env.Opts{})
+	e.W.IgnoreCtx = true
+	mustRegister(e.W, c.SPD, "appA")
+	x := c.Req.XML(rng)
+	ctx, cancel := context.WithCancel(context.Background())
+	defer cancel()
+	lateWrite := idx%2 == 0
+	e.W.Before = func(_ context.Context, _, op string, _ int) {
+		if op == "CreateAuthRequest" {
+			cancel()
+			if lateWrite {
+				time.Sleep(3 * time.Millisecond) // the write completes a moment after the cancellation
+			}
+		}
+	}
+	var rq env.Req
+	if idx%4 < 2 {
+		rq = env.Req{Method: "POST", Path: env.PathSSO, Body: spsim.FormBody("SAMLRequest", spsim.B64([]byte(x)), "RelayState", "MKrelay"), Ctx: ctx}
+	} else {
+		rq = env.Req{Path: env.PathSSO, Query: "SAMLRequest=" + url.QueryEscape(spsim.DeflateB64(x)) + "&RelayState=MKrelay", Ctx: ctx}
+	}
+	call := e.Do(rq)
+	time.Sleep(10 * time.Millisecond) // a storage call the handler no longer waits for gets time to finish
+	call.Events = e.W.Events(call.Tag)
+	class := fmt.Sprintf("cancelled_during_persist|late_write=%v", lateWrite)
+	r.Eval(fmt.Sprintf("%s|%d", class, idx))
+	r.Count("requests_cancelled_during_persist", 1)
+	desc := map[string]any{"late_write": lateWrite}
+	out := judgeSSOOutcome(r, wl, idx, class, e, call, desc)
+	sentOn := 0
+	if out == "accepted" {
+		sentOn = 1
+	}
+	if n := e.W.NumRequests(); n != sentOn {
+		r.Violate(core.Violation{Clause: "record_left_behind", Class: class, Reason: fmt.Sprintf("%d record(s) stored although the reply (status %d, %s) did not send the browser on to login", n, call.D.Status, call.D.Kind), Workload: wl, Index: idx, Case: desc, Observed: call.Describe()})
+	}
+}
+
 func c08Case(r *core.Run, idx int, rng *rand.Rand) {
 	const wl = "sso_outcomes"
 	c := conformantSSO(rng)
@@ -414,10 +461,12 @@ func init() {
 			r.Require("registration_unanswerable_checked", 100)
 			r.Require("registration_answerable_checked", 100)
 			r.Require("concurrent_duplicate_pairs", 50)
+			r.Require("requests_cancelled_during_persist", 50)
 			return []core.Workload{
 				{Name: "sso_outcomes", N: c.Pick(1600, 16000), Fn: c08Case},
 				{Name: "registration_changes", N: c.Pick(150, 1500), Fn: c08Registration},
 				{Name: "concurrent_duplicates", N: c.Pick(80, 800), Fn: c08ConcurrentDuplicates},
+				{Name: "cancelled_during_persist", N: c.Pick(60, 600), Fn: c08CancelledDuringPersist},
 			}
 		},
 		After: func(c *Ctx) {
